@@ -18,6 +18,7 @@ REPO = Path(os.environ.get("VERIF_REPO", "/repo"))
 PROPS = ["C32"]
 SRC_POOL = "vgi_rpc/pool.py"
 SRC_CLIENT = "vgi_rpc/rpc/_client.py"
+SRC_WIRE = "vgi_rpc/rpc/_wire.py"
 
 CMP = {ast.Lt: "lt", ast.LtE: "le", ast.Gt: "gt", ast.GtE: "ge", ast.Eq: "eq", ast.NotEq: "ne"}
 
@@ -541,6 +542,47 @@ def analyse_client(text: str) -> dict:
     return {"shapeClient": bool(drained_ok and order_ok and exit_ok and fetch_ok), "fp_client": _fingerprint(*nodes, *( [mk] if mk is not None else []))}
 
 
+def analyse_wire(text: str) -> dict:
+    """`_read_unary_response`: whatever the client does with a reply, the reply is read to its EOS marker first.
+
+    * reading the result batch: `except RpcError` drains then re-raises; `except Exception` (on_log raised, an external
+      fetch failed …) drains (suppressed) then re-raises;
+    * once the batch is there, `_drain_stream(reader)` is the FIRST statement of what follows — before the value is
+      extracted, validated or deserialised, all of which can raise on the client."""
+    tree = ast.parse(text)
+    fn = next((n for n in tree.body if isinstance(n, ast.FunctionDef) and n.name == "_read_unary_response"), None)
+    if fn is None:
+        raise ValueError("_read_unary_response not found")
+    b = _strip_logs(_body(fn))
+    ok = len(b) == 2 and isinstance(b[0], ast.Try) and isinstance(b[1], ast.Try)
+    if ok:
+        t1, t2 = b
+        assert isinstance(t1, ast.Try) and isinstance(t2, ast.Try)
+        hs = {u(h.type): h for h in t1.handlers}
+        ok = (
+            len(t1.body) == 1
+            and u(t1.body[0]).startswith("batch = _read_batch_with_log_check(reader")
+            and set(hs) == {"RpcError", "Exception"}
+            and [u(x) for x in hs["RpcError"].body] == ["_drain_stream(reader)", "raise"]
+            and len(hs["Exception"].body) == 2
+            and isinstance(hs["Exception"].body[0], ast.With)
+            and "suppress" in u(hs["Exception"].body[0].items[0].context_expr)
+            and [u(x) for x in hs["Exception"].body[0].body] == ["_drain_stream(reader)"]
+            and u(hs["Exception"].body[1]) == "raise"
+            and not t1.orelse
+            and not t1.finalbody
+        )
+        body2 = _strip_logs(t2.body)
+        drains = [n for n in ast.walk(t2) if isinstance(n, ast.Call) and u(n.func) == "_drain_stream"]
+        ok = ok and bool(body2) and u(body2[0]) == "_drain_stream(reader)" and len(drains) == 1 and not t2.handlers
+    dfn = next((n for n in tree.body if isinstance(n, ast.FunctionDef) and n.name == "_drain_stream"), None)
+    ok = ok and dfn is not None and any(
+        isinstance(n, ast.ExceptHandler) and u(n.type) == "StopIteration" and any(isinstance(x, ast.Return) for x in n.body)
+        for n in ast.walk(dfn)
+    )
+    return {"shapeWire": bool(ok), "fp_wire": _fingerprint(fn)}
+
+
 def _b(x: bool) -> str:
     return "true" if x else "false"
 
@@ -548,7 +590,9 @@ def _b(x: bool) -> str:
 def emit() -> dict[str, str]:
     a = analyse_pool((REPO / SRC_POOL).read_text())
     c = analyse_client((REPO / SRC_CLIENT).read_text())
-    fp = hashlib.sha256((a["fp_pool"] + c["fp_client"]).encode()).hexdigest()[:16]
+    w = analyse_wire((REPO / SRC_WIRE).read_text())
+    c["shapeClient"] = bool(c["shapeClient"] and w["shapeWire"])
+    fp = hashlib.sha256((a["fp_pool"] + c["fp_client"] + w["fp_wire"]).encode()).hexdigest()[:16]
     body = f"""/-
 Extracted from {SRC_POOL} (WorkerPool, _PooledTransport) and {SRC_CLIENT} (StreamSession, the stream caller).
 -/
@@ -621,7 +665,10 @@ at call time — nothing is captured when the caller is built; the stream caller
 session exists; `StreamSession._drained` becomes `True` only when a drain reached the EOS marker: it is assigned `False`
 (constructor), the result of `_drain_output()` (in `close` / `cancel`) and, inside `_drain_output`, its local `reached_eos`
 before the exception of an `on_log` callback is re-raised; `_drain_output` yields `True` only through its
-`except StopIteration` handler; `RpcConnection.__exit__` closes the transport -/
+`except StopIteration` handler; `RpcConnection.__exit__` closes the transport; and (`rpc/_wire.py`)
+`_read_unary_response` reads every unary reply to its EOS marker before anything client-side can fail on it: both handlers
+around the read of the result batch drain, and `_drain_stream(reader)` is the first statement once the batch is there —
+before the value is extracted, validated or deserialised -/
 def shapeClient : Bool := {_b(c["shapeClient"])}
 
 /-- normalised-AST fingerprint of the modelled functions (drift indicator only) -/
